@@ -106,6 +106,44 @@ def singularity_sets(rng, nV, F):
     return out
 
 
+def regular_grid_tri(nu, nv, diag):
+    """flat unit grid, diag 0/1: all diagonals one way, 2: alternating (many equal path lengths)"""
+    V = [[float(i), float(j), 0.0] for i in range(nu) for j in range(nv)]
+    F = []
+    for i in range(nu - 1):
+        for j in range(nv - 1):
+            a, b, c, d = i * nv + j, (i + 1) * nv + j, (i + 1) * nv + j + 1, i * nv + j + 1
+            dd = diag if diag < 2 else (i + j) % 2
+            F += [[a, b, c], [a, c, d]] if dd == 0 else [[a, b, d], [b, c, d]]
+    return V, F
+
+
+def pairs_at_hole(rng, budget):
+    """regular grids with ONE interior triangle removed; singular pairs (s1 next to the hole, s2 next to s1), with and
+    without one interior feature edge: shortest paths of equal length that share a vertex and end on different vertices of
+    the same border loop (the configuration of the defect found by thorough seed 5). Yields at most `budget` cases,
+    sampled uniformly from the full enumeration."""
+    allc = []
+    for (nu, nv, diag) in [(6, 6, 0), (6, 6, 1), (6, 7, 2)]:
+        V, F0 = regular_grid_tri(nu, nv, diag)
+        ob = set(border_vertices(F0))
+        for hole in range(len(F0)):
+            if any(v in ob for v in F0[hole]): continue
+            F = F0[:hole] + F0[hole + 1:]
+            nb = {}
+            for f in F:
+                for i in range(3): nb.setdefault(f[i], set()).update(f)
+            b = set(border_vertices(F)); hv = set(F0[hole])
+            ie = [e for e in interior_edges(F) if e[0] not in b and e[1] not in b]
+            for s1 in [v for v in range(len(V)) if v not in b and nb[v] & hv]:
+                for s2 in sorted(v for v in nb[s1] if v != s1 and v not in b):
+                    for feat in (None, {"mode": "edges", "edges": [list(ie[0])]}):
+                        allc.append({"V": V, "F": F, "sing": [s1, s2], "feat": feat, "tag": "grid-regular+hole", "sk": "pair-at-hole"})
+    if budget < len(allc):
+        allc = rng.sample(allc, budget)
+    return allc
+
+
 # ------------------------------------------------------------------------------------------------
 # disks for C17
 # ------------------------------------------------------------------------------------------------
